@@ -882,3 +882,136 @@ Proof.
   exists l. split; [exact Hci|]. unfold CoverInv. rewrite (vi_bal _ _ _ _ Hvi). lia.
 Qed.
 End HReachVested.
+
+(** ** C12 along the set-up history: winners + reservations stays the configured number *)
+Section HTotal.
+Variable H : list N -> list N.
+
+Ltac open_plain E w0 :=
+  unfold exec in E; cbn [payable] in E; fold w0 in E;
+  apply bind_ok in E; destruct E as (?u & ?Hnp & E); apply no_payment_nil in Hnp; rewrite Hnp in E;
+  cbn [credit_payment bind] in E; cbn [dispatch] in E; unfold ret0 in E; mon_inv.
+
+Lemma exec_common_reserve v e b sd w c w' r :
+  common_call c -> pay_wf (pay e) -> exec H v e b sd w c = Ok (w', r) ->
+  reserve_total (st w') = reserve_total (st w).
+Proof.
+  intros Hc Hwf E.
+  set (w0 := w <| evs := [] |> <| rlog := [] |> <| locks := [] |> <| seeds := sd |>).
+  destruct Hc as [ | n | | | r0 | r0 | r0 | a | a].
+  - unfold exec in E. cbn [payable] in E. fold w0 in E. cbn [bind] in E.
+    apply bind_ok in E. destruct E as (w1 & Hcr & E).
+    cbn [dispatch] in E. unfold ret0 in E. mon_inv.
+    match goal with Hd : deposit_launchpad_tokens _ _ _ = Ok _ |- _ => apply (deposit_iff _ _ _ _ Hwf) in Hd; destruct Hd as (_ & _ & _ & ->) end.
+    pose proof (credit_payment_st _ _ _ _ Hcr) as Hs1. rewrite st_set_st, Hs1. reflexivity.
+  - apply (exec_confirm_iff H v e b sd w n w' r Hwf) in E. destruct E as (w1 & Hcr & _ & -> & _).
+    pose proof (credit_payment_st _ _ _ _ Hcr) as Hs1. unfold reset_outputs in Hs1. cbn in Hs1.
+    unfold confirm_effect. rewrite st_emit, st_set_st, Hs1. reflexivity.
+  - open_plain E w0.
+    match goal with Hd : pause_endpoint _ _ = Ok _ |- _ => apply gate_pause in Hd; destruct Hd as (_ & Hs & _) end. rewrite Hs. reflexivity.
+  - open_plain E w0.
+    match goal with Hd : unpause_endpoint _ _ = Ok _ |- _ => apply gate_unpause in Hd; destruct Hd as (_ & Hs & _) end. rewrite Hs. reflexivity.
+  - open_plain E w0.
+    match goal with Hd : set_confirmation_period_start_round _ _ _ = Ok _ |- _ => apply gate_set_conf in Hd; destruct Hd as (_ & _ & _ & Hs & _) end. rewrite Hs. reflexivity.
+  - open_plain E w0.
+    match goal with Hd : set_winner_selection_start_round _ _ _ = Ok _ |- _ => apply gate_set_ws in Hd; destruct Hd as (_ & _ & _ & Hs & _) end. rewrite Hs. reflexivity.
+  - open_plain E w0.
+    match goal with Hd : set_claim_start_round _ _ _ = Ok _ |- _ => apply gate_set_claim in Hd; destruct Hd as (_ & _ & _ & Hs & _) end. rewrite Hs. reflexivity.
+  - open_plain E w0.
+    match goal with Hd : set_support_address _ _ _ = Ok _ |- _ => unfold set_support_address in Hd; mon_inv end. reflexivity.
+  - open_plain E w0.
+    match goal with Hd : set_launchpad_tokens_per_winning_ticket _ _ _ = Ok _ |- _ =>
+      unfold set_launchpad_tokens_per_winning_ticket, try_set_tpt in Hd; mon_inv end. reflexivity.
+Qed.
+
+Lemma blacklist_endpoint_reserve v we e w la w' :
+  guar v -> blacklist_endpoint v we e w la = Ok w' -> reserve_total (st w') = reserve_total (st w).
+Proof.
+  intros Hv E. unfold blacklist_endpoint in E.
+  apply bind_ok in E. destruct E as (w1 & H1 & E). apply blacklist_common_keeps_reserve in H1.
+  apply bind_ok in E. destruct E as (w2 & H2 & E).
+  assert (Hr2 : reserve_total (st w2) = reserve_total (st w1)).
+  { destruct Hv as [-> | [-> | [-> | ->]]]; [apply clear_gt_v1_conserves in H2..|apply clear_gt_v2_conserves in H2]; exact H2. }
+  apply bind_ok in E. destruct E as (w3 & H3 & E).
+  assert (w3 = w2) by (destruct Hv as [-> | [-> | [-> | ->]]]; cbn [has_nft] in H3; inversion H3; reflexivity). subst w3.
+  inversion E; subst w'; clear E.
+  destruct Hv as [-> | [-> | [-> | ->]]]; try congruence. destruct we; rewrite ?st_emit; congruence.
+Qed.
+
+Lemma unblacklist_endpoint_reserve v e w la w' :
+  guar v -> unblacklist_endpoint v e w la = Ok w' -> reserve_total (st w') = reserve_total (st w).
+Proof.
+  intros Hv E. unfold unblacklist_endpoint in E.
+  apply bind_ok in E. destruct E as (w1 & H1 & E).
+  unfold remove_users_from_blacklist in H1. apply bind_ok in H1. destruct H1 as (u1 & _ & H1). apply bind_ok in H1. destruct H1 as (u2 & _ & H1).
+  apply bind_ok in H1. destruct H1 as (s1 & Hl & H1). inversion H1; subst w1; clear H1.
+  destruct (unblacklist_loop_only _ _ _ Hl) as (bl' & Hs1).
+  assert (Hr1 : reserve_total (st (set_st w s1)) = reserve_total (st w)) by (rewrite st_set_st, Hs1; reflexivity).
+  destruct Hv as [-> | [-> | [-> | ->]]]; try discriminate.
+  1,2: apply unblacklist_gt_v1_conserves in E; congruence.
+  apply bind_ok in E. destruct E as (w2 & H2 & E). inversion E; subst w'; clear E.
+  apply unblacklist_gt_v2_conserves in H2. rewrite st_emit. congruence.
+Qed.
+
+Theorem setup_reach_gt_total v w : guar v -> setup_reach_gt H v w ->
+  exists e lp tpt0 ptok price0 nrw conf ws claim x s,
+    deploy v e lp tpt0 ptok price0 nrw conf ws claim x = Ok s /\ reserve_total (st w) = nrw.
+Proof.
+  intros Hv. induction 1 as [e lp tpt0 ptok price0 nrw conf ws claim x s Hd Hlp
+                            | w e b sd c w' r _ IH Hc Hwf Hcs E
+                            | w e b sd lx w' r _ IH Hpos Hsc E
+                            | w e b sd lx w' r _ IH Hsc E
+                            | w e b sd la w' r _ IH Hsc E
+                            | w e b sd la w' r _ IH Hsc E
+                            | w e b sd la w' r _ IH E].
+  - exists e, lp, tpt0, ptok, price0, nrw, conf, ws, claim, x, s. split; [exact Hd|].
+    unfold deploy in Hd.
+    destruct Hv as [-> | [-> | [-> | ->]]]; cbn [has_nft is_v1 has_lock has_extra negb] in Hd; mon_inv;
+      repeat match goal with Hl : lock_init _ _ _ _ _ = Ok _ |- _ => unfold lock_init in Hl; mon_inv end;
+      match goal with Hinit : init_base _ _ _ _ _ _ _ _ _ _ = Ok _ |- _ =>
+        unfold init_base, try_set_tpt, try_set_ticket_price, try_set_nr_winning in Hinit; mon_inv end;
+      unfold reserve_total; cbn; lia.
+  - destruct IH as (e0 & lp & tpt0 & ptok & price0 & nrw & conf & ws & claim & x & s & Hd & Hrt).
+    exists e0, lp, tpt0, ptok, price0, nrw, conf, ws, claim, x, s. split; [exact Hd|].
+    rewrite (exec_common_reserve _ _ _ _ _ _ _ _ Hc Hwf E). exact Hrt.
+  - destruct IH as (e0 & lp & tpt0 & ptok & price0 & nrw & conf & ws & claim & x & s & Hd & Hrt).
+    exists e0, lp, tpt0, ptok, price0, nrw, conf, ws, claim, x, s. split; [exact Hd|].
+    set (w0 := w <| evs := [] |> <| rlog := [] |> <| locks := [] |> <| seeds := sd |>).
+    unfold exec in E. cbn [payable] in E. fold w0 in E.
+    apply bind_ok in E. destruct E as (u & Hnp & E). apply no_payment_nil in Hnp. rewrite Hnp in E.
+    cbn [credit_payment bind] in E. cbn [dispatch] in E.
+    destruct (is_v1 v); [|discriminate]. unfold ret0 in E. mon_inv.
+    match goal with Hd2 : add_tickets_v1 _ _ _ = Ok _ |- _ => apply add_tickets_v1_conserves in Hd2; destruct Hd2 as [Hd2 _]; rewrite Hd2 end. first [exact Hrt|reflexivity].
+  - destruct IH as (e0 & lp & tpt0 & ptok & price0 & nrw & conf & ws & claim & x & s & Hd & Hrt).
+    exists e0, lp, tpt0, ptok, price0, nrw, conf, ws, claim, x, s. split; [exact Hd|].
+    set (w0 := w <| evs := [] |> <| rlog := [] |> <| locks := [] |> <| seeds := sd |>).
+    unfold exec in E. cbn [payable] in E. fold w0 in E.
+    apply bind_ok in E. destruct E as (u & Hnp & E). apply no_payment_nil in Hnp. rewrite Hnp in E.
+    cbn [credit_payment bind] in E. cbn [dispatch] in E.
+    destruct v; try discriminate. unfold ret0 in E. mon_inv.
+    match goal with Hd2 : add_tickets_v2 _ _ _ = Ok _ |- _ => apply add_tickets_v2_conserves in Hd2; destruct Hd2 as [Hd2 _]; rewrite Hd2 end. first [exact Hrt|reflexivity].
+  - destruct IH as (e0 & lp & tpt0 & ptok & price0 & nrw & conf & ws & claim & x & s & Hd & Hrt).
+    exists e0, lp, tpt0, ptok, price0, nrw, conf, ws, claim, x, s. split; [exact Hd|].
+    set (w0 := w <| evs := [] |> <| rlog := [] |> <| locks := [] |> <| seeds := sd |>).
+    unfold exec in E. cbn [payable] in E. fold w0 in E.
+    apply bind_ok in E. destruct E as (u & Hnp & E). apply no_payment_nil in Hnp. rewrite Hnp in E.
+    cbn [credit_payment bind] in E. cbn [dispatch] in E. unfold ret0 in E. mon_inv.
+    match goal with Hd2 : blacklist_endpoint _ _ _ _ _ = Ok _ |- _ => apply (blacklist_endpoint_reserve _ _ _ _ _ _ Hv) in Hd2; rewrite Hd2 end. first [exact Hrt|reflexivity].
+  - destruct IH as (e0 & lp & tpt0 & ptok & price0 & nrw & conf & ws & claim & x & s & Hd & Hrt).
+    exists e0, lp, tpt0, ptok, price0, nrw, conf, ws, claim, x, s. split; [exact Hd|].
+    set (w0 := w <| evs := [] |> <| rlog := [] |> <| locks := [] |> <| seeds := sd |>).
+    unfold exec in E. cbn [payable] in E. fold w0 in E.
+    apply bind_ok in E. destruct E as (u & Hnp & E). apply no_payment_nil in Hnp. rewrite Hnp in E.
+    cbn [credit_payment bind] in E. cbn [dispatch] in E.
+    destruct v; try discriminate. unfold ret0 in E. mon_inv.
+    match goal with Hd2 : blacklist_endpoint _ _ _ _ _ = Ok _ |- _ => apply (blacklist_endpoint_reserve _ _ _ _ _ _ Hv) in Hd2; rewrite Hd2 end. first [exact Hrt|reflexivity].
+  - destruct IH as (e0 & lp & tpt0 & ptok & price0 & nrw & conf & ws & claim & x & s & Hd & Hrt).
+    exists e0, lp, tpt0, ptok, price0, nrw, conf, ws, claim, x, s. split; [exact Hd|].
+    set (w0 := w <| evs := [] |> <| rlog := [] |> <| locks := [] |> <| seeds := sd |>).
+    unfold exec in E. cbn [payable] in E. fold w0 in E.
+    apply bind_ok in E. destruct E as (u & Hnp & E). apply no_payment_nil in Hnp. rewrite Hnp in E.
+    cbn [credit_payment bind] in E. cbn [dispatch] in E.
+    destruct (has_unblacklist v); [|discriminate]. unfold ret0 in E. mon_inv.
+    match goal with Hd2 : unblacklist_endpoint _ _ _ _ = Ok _ |- _ => apply (unblacklist_endpoint_reserve _ _ _ _ _ Hv) in Hd2; rewrite Hd2 end. first [exact Hrt|reflexivity].
+Qed.
+End HTotal.
